@@ -35,3 +35,47 @@ long strtol(const char *s, char **end, int base) {
     if (end) *end = (char *)(s == st ? st : s);
     return neg ? -v : v;
 }
+
+/* ---- the process's time zone -------------------------------------------------------------------------------------
+ * Environment of the code under analysis: "which zone am I in" is an input the harness sets (vrt_set_tz, seconds east
+ * of UTC; another process or machine = another value).  localtime/mktime follow it, gmtime/timegm do not. */
+#include <time.h>
+long vrt_tz_east = 0;
+void vrt_set_tz(long seconds_east) { vrt_tz_east = seconds_east; }
+static long long vrt_days_from_civil(long long y, unsigned m, unsigned d) {
+    y -= m <= 2;
+    long long era = (y >= 0 ? y : y - 399) / 400;
+    unsigned yoe = (unsigned)(y - era * 400);
+    unsigned doy = (153 * (m + (m > 2 ? -3 : 9)) + 2) / 5 + d - 1;
+    unsigned doe = yoe * 365 + yoe / 4 - yoe / 100 + doy;
+    return era * 146097 + (long long)doe - 719468;
+}
+struct tm *gmtime_r(const time_t *t, struct tm *r) {
+    long long s = (long long)*t, days = s / 86400, rem = s % 86400;
+    if (rem < 0) { rem += 86400; days -= 1; }
+    long long z = days + 719468, era = (z >= 0 ? z : z - 146096) / 146097;
+    unsigned doe = (unsigned)(z - era * 146097);
+    unsigned yoe = (doe - doe / 1460 + doe / 36524 - doe / 146096) / 365;
+    long long y = (long long)yoe + era * 400;
+    unsigned doy = doe - (365 * yoe + yoe / 4 - yoe / 100);
+    unsigned mp = (5 * doy + 2) / 153;
+    unsigned d = doy - (153 * mp + 2) / 5 + 1;
+    unsigned m = mp < 10 ? mp + 3 : mp - 9;
+    y += m <= 2;
+    r->tm_sec = (int)(rem % 60); r->tm_min = (int)(rem / 60 % 60); r->tm_hour = (int)(rem / 3600);
+    r->tm_mday = (int)d; r->tm_mon = (int)m - 1; r->tm_year = (int)(y - 1900);
+    long long wd = (days + 4) % 7; r->tm_wday = (int)(wd < 0 ? wd + 7 : wd);
+    r->tm_yday = (int)(days - vrt_days_from_civil(y, 1, 1));
+    r->tm_isdst = 0; r->tm_gmtoff = 0; r->tm_zone = "UTC";
+    return r;
+}
+time_t timegm(struct tm *tm) {
+    long long y = (long long)tm->tm_year + 1900 + tm->tm_mon / 12; int mon = tm->tm_mon % 12; if (mon < 0) { mon += 12; y -= 1; }
+    long long days = vrt_days_from_civil(y, (unsigned)mon + 1, 1) + (tm->tm_mday - 1);
+    return (time_t)(days * 86400 + (long long)tm->tm_hour * 3600 + (long long)tm->tm_min * 60 + tm->tm_sec);
+}
+struct tm *localtime_r(const time_t *t, struct tm *r) { time_t u = *t + vrt_tz_east; gmtime_r(&u, r); r->tm_gmtoff = vrt_tz_east; r->tm_zone = "VRT"; return r; }
+time_t mktime(struct tm *tm) { time_t u = timegm(tm) - vrt_tz_east; struct tm n; localtime_r(&u, &n); *tm = n; return u; }
+static struct tm vrt_tm_buf;
+struct tm *gmtime(const time_t *t) { return gmtime_r(t, &vrt_tm_buf); }
+struct tm *localtime(const time_t *t) { return localtime_r(t, &vrt_tm_buf); }
